@@ -831,7 +831,7 @@ func TestVerif(t *testing.T) {
 		}
 	}
 	// 1. expansion strings
-	toks := []string{"x", "$", "$$", "${aa:K}", "${K}", "${aa:R}", "${aa:E}", "${aa:N}", "${aa:${aa:P}}", "{", "}", ":", "${aa:D}", "${aa:C}", "${aa:C2}", "${aa:B}", " ", "\n"}
+	toks := []string{"x", "$", "$$", "${aa:K}", "${K}", "${aa:R}", "${aa:E}", "${aa:N}", "${aa:${aa:P}}", "{", "}", ":", "${aa:D}", "${aa:C}", "${aa:C2}", "${aa:B}", " ", "\n", "${aa:K", "K}"}
 	depth := ctx.Param("tokens", 4)
 	seen := map[string]bool{}
 	var all []string
